@@ -195,6 +195,13 @@ def xFn(v, z):
     return (z + G(v + 2)) / (z * z + G(2 * v + 5))
 
 
+def xFv(v, z):
+    """value v(z) of the named function at an instant (mirror of LaplaceExec.xFv; v(0) is the initial-value atom)"""
+    if z.re == 0 and z.im == 0:
+        return xIc(v, 0)
+    return (z * z + G(v + 3)) / (z + G(v + 5))
+
+
 def xIc(v, m):
     return G(Fraction(7 + 3 * v + m, 5))
 
@@ -265,9 +272,9 @@ class Point:
                 raise Uneval('function arity')
             if name[0].isupper():
                 return xFn(self.fn_index(name), self.ev(e.args[0]))
-            if e.args[0] == 0:
-                return xIc(self.fn_index(name), 0)
-            raise Uneval('time function in result: ' + str(e))
+            if e.args[0].has(tsym):
+                raise Uneval('time function in result: ' + str(e))
+            return xFv(self.fn_index(name), self.ev(e.args[0]))
         if isinstance(e, sp.Subs):
             d, var, pt = e.args
             if (isinstance(d, sp.Derivative) and isinstance(d.args[0], AppliedUndef) and len(var) == 1 and len(pt) == 1
@@ -592,9 +599,9 @@ def lcapy_float(R, pt, sval, names):
             name = e.func.__name__
             if name[0].isupper():
                 return Vconc(pt.fn_index(name), ev(e.args[0]))
-            if e.args[0] == 0:
-                return mp.mpf(0)
-            raise Uneval('time function in result')
+            if e.args[0].has(tsym):
+                raise Uneval('time function in result')
+            return vconc(pt.fn_index(name), mp.re(ev(e.args[0])))
         if isinstance(e, sp.Subs):
             return mp.mpf(0)      # v^(m)(0-) = 0 for the concrete causal functions, m <= 3
         raise Uneval(type(e).__name__)
